@@ -85,7 +85,7 @@ KANI_UNITS = {
         "src": "units/kani/minicbor/tokens.rs",
         "inject": [
             {"copy": ("units/kani/minicbor/tokens.rs", "minicbor/src/kani_tokens.rs")},
-            {"append": ("minicbor/src/lib.rs", "#[cfg(kani)] mod kani_tokens;")},
+            {"append": ("minicbor/src/lib.rs", "#[cfg(all(kani, feature = \"half\"))] mod kani_tokens;")},
         ],
         "module": "kani_tokens",
     },
@@ -100,10 +100,25 @@ KANI_UNITS = {
     },
 }
 
+# ---- registry fragments: units/kani/<dir>/registry.json  {"crates": {name: {...}}, "units": {name: {...}}}
+import glob as _glob, json as _json
+for _f in sorted(_glob.glob(os.path.join(VERIF, "units", "kani", "*", "registry.json"))):
+    if os.environ.get("VERIF_NO_FRAGMENTS"):
+        continue
+    try:
+        with open(_f) as _fh:
+            _frag = _json.load(_fh)
+    except (OSError, ValueError):
+        continue
+    KANI_CRATES.update(_frag.get("crates", {}))
+    KANI_UNITS.update(_frag.get("units", {}))
+
 def kani_harnesses():
     out = []
     for uname, u in KANI_UNITS.items():
-        hs = kani_run.discover(os.path.join(VERIF, u["src"]), uname, u["module"])
+        if not os.path.exists(os.path.join(VERIF, u["src"])):
+            continue
+        hs = kani_run.discover(os.path.join(VERIF, u["src"]), uname, u.get("module", ""))
         out.extend(hs)
     return out
 
